@@ -215,14 +215,15 @@ struct reb_rotation reb_rotation_init_angle_axis(const double angle, struct reb_
 }
 
 struct reb_rotation reb_rotation_init_to_new_axes(struct reb_vec3d newz, struct reb_vec3d newx){
-    double dotprod = reb_vec3d_dot(newz, newx);
     newz = reb_vec3d_normalize(newz);
-    newx = reb_vec3d_add(newx, reb_vec3d_mul(newz, -dotprod)); // orthogonalize: newx = newx - (newx dot newz) newzhat
+    double dotprod = reb_vec3d_dot(newz, newx); // needs the normalized newz
+    newx = reb_vec3d_add(newx, reb_vec3d_mul(newz, -dotprod)); // orthogonalize: newx = newx - (newx dot newzhat) newzhat
     struct reb_vec3d z = {.x=0.0, .y=0.0, .z=1.0};
     struct reb_rotation q1 = reb_rotation_init_from_to(newz, z);
-    struct reb_vec3d x = {.x=1.0, .y=0.0, .z=0.0};
     reb_vec3d_irotate(&newx, q1); // need to rotate newx to what it would be after the first rotation
-    struct reb_rotation q2 = reb_rotation_init_from_to(newx, x);
+    // newx is now in the xy plane. The second rotation has to be around the z axis (a general
+    // from_to rotation would not keep z fixed when newx is close to the negative x axis).
+    struct reb_rotation q2 = reb_rotation_init_angle_axis(-atan2(newx.y, newx.x), z);
     return reb_rotation_mul(q2, q1);
 }
 
